@@ -65,7 +65,7 @@ func verifAddDevice(s *GCAServer, ea glow.EquipmentAuthorization, name string) {
 func verifOffset(name string) uint32 {
 	o := verifU32(name)
 	verifAssume(o%2016 == 0)
-	verifAssume(o <= 0xFFFFFFFF-6049) // no wrap in offset+4032 (year ~42000; outside the claim)
+	verifAssume(o <= 0xFFFFFFFF-4032) // offset+4032 itself does not wrap (year ~42000; beyond it is outside the claim)
 	return o
 }
 
